@@ -15,7 +15,8 @@ StartOpts ==
     [Base EXCEPT !.prog = "/nonexistent"],                \* failing start: the handle stays startable
     [Base EXCEPT !.rin = R_DISCARD, !.input = 1],         \* invalid options
     [Base EXCEPT !.rout = R_DISCARD, !.rerr = R_PIPE],
-    [Base EXCEPT !.input = 1] } \cup
+    [Base EXCEPT !.input = 1],
+    Base @@ [fork |-> TRUE] } \cup
   (IF Depth = "full" THEN { [Base EXCEPT !.rerr = R_STDOUT], [Base EXCEPT !.rin = R_PARENT, !.term = 2, !.stop = NoStop, !.dl = 1] } ELSE {})
 
 Hs == {0, 1}
